@@ -18,7 +18,7 @@ import numpy as np
 from . import sched_common as sc
 from . import c01
 from .. import common
-from ..fmutil import T, close, err_class, fm, scalar
+from ..fmutil import limited, T, close, err_class, fm, scalar
 from ..schedlib import H, TH, hours, model_request, run_impl
 
 MODULES = sc.MODULES + ["Static"]
@@ -311,6 +311,10 @@ def gen_ws(rng):
     csteps = [rng.choice([1, 2, 3]) for _ in range(ncons)]
     if ncons == 2 and rng.random() < 0.6:
         csteps[1] = csteps[0]  # both consumers ask for the same times
+    if n >= 2 and rng.random() < 0.12:
+        # an input without data (NaN) whose weight is exactly zero: value times weight is NaN, and so is the sum
+        k = rng.randrange(n)
+        pairs[k]["w"], pairs[k]["nan"] = 0, True
     return {"part": "ws", "pairs": pairs, "csteps": csteps, "end": rng.randint(4, 12), "order_flip": rng.random() < 0.5}
 
 
@@ -318,7 +322,7 @@ def run_ws(case):
     log = []
     prods, weights = [], []
     for i, p in enumerate(case["pairs"]):
-        prods.append(Prod(f"V{i}", p["units"], 1, lambda h, p=p: float(p["a"] * h + p["b"])))
+        prods.append(Prod(f"V{i}", p["units"], 1, lambda h, p=p: float("nan") if p.get("nan") else float(p["a"] * h + p["b"])))
         weights.append(Prod(f"W{i}", "", 1, lambda h, p=p: p["w"] / p["wd"]))
     ws = fm.components.WeightedSum(inputs=[f"in{i}" for i in range(len(prods))])
     cons = [Cons(f"C{k}", s, log) for k, s in enumerate(case["csteps"])]
@@ -332,7 +336,7 @@ def run_ws(case):
     for c in cons:
         ws.outputs["WeightedSum"] >> c.inputs["In"]
     try:
-        comp.run(end_time=TH(case["end"]))
+        limited(120, comp.run, end_time=TH(case["end"]))
         return {"error": None, "log": log}
     except Exception as e:  # noqa
         return {"error": err_class(e), "msg": f"{type(e).__name__}: {e}"[:300], "log": log}
@@ -359,6 +363,11 @@ def oracle_ws(case, impl):
                     {"got": units, "inputs": sorted(allowed)})
         # which of the compatible input units the merger settles on depends on which input's metadata arrives
         # first; the delivered quantity must be the same physical value
+        if any(p.get("nan") for p in case["pairs"]):
+            if v == v:   # not NaN
+                return ("the merger returns the sum of value times weight: a NaN value stays NaN also under a zero weight",
+                        {"consumer": name, "time": h, "got": v})
+            continue
         exp = expected_ws(case, h) * UNITS[u0] / UNITS[names[units]]
         if not close(v, float(exp)):
             return ("the merger returns the sum of value times weight for the requested time",
@@ -417,6 +426,9 @@ def run(ctx, res):
         res.count("part", "ws")
         res.count("ws_same_time_consumers", memo_hit)
         skip = impl["error"] is not None and len(set(c["csteps"])) > 1
+        if any(p.get("nan") for p in c["pairs"]):
+            skip = True   # NaN payloads: judged by the oracle only (the model computes with exact rationals)
+            res.count("ws_nan_zero_weight")
         if not skip:
             if impl["error"] is not None:
                 res.diverge("ws/requests", c, {"impl_error": impl.get("msg")}, None)
